@@ -96,6 +96,7 @@ def main():
       reps.setdefault(k_, []).extend(v_)
   rec.exhaustive = True
   _lines(rec, reps, quick, args.seed)
+  _pairs(rec, reps)
   return rec.dump(args.out)
 
 
@@ -256,6 +257,51 @@ def _lines(rec, reps, quick, seed):
         if got != want:
           rec.fail("line-disassembly", "line disassembly renders every word", f"line {[f'{v:04x}' for v in combo]}: {got!r} != {want!r}",
                    {"words": [f"{v:04x}" for v in combo]})
+
+
+def _pairs(rec, reps):
+  """every channel-1 field-1 code word followed by each word that carries the SAME code for channel 2 or for field 2 (parity bits clear):
+  the second word is not a redundant copy of the first -- it is rendered with its own channel attribution, it is not decoded, and the
+  channel-1 text that follows it is not decoded either (exhaustive over the code words: a few thousand pairs)"""
+  tc = SmpteTimeCode(1, 2, 3, 4, FPS_30)
+  by_det = {}
+  for cls in (S.PAC, S.MIDROW, S.CONTROL, S.ATTRIBUTE, S.SPECIAL, S.EXTENDED):
+    for v in reps.get(cls, []):
+      if v & 0x8080:
+        continue          # parity variants are covered by the per-word contracts
+      c, ch, field, det = S.classify(v >> 8, v & 0xFF)
+      by_det.setdefault((cls, repr(det)), []).append((v, ch, field))
+  n = 0
+  for (cls, _), ws in sorted(by_det.items()):
+    firsts = [v for v, ch, field in ws if ch == 1 and field == 1]
+    others = [v for v, ch, field in ws if not (ch == 1 and field == 1)]
+    for v1 in firsts:
+      for v2 in others:
+        n += 1
+        key = {"words": [f"{v1:04x}", f"{v2:04x}"]}
+        w1, w2 = SccWord.from_value(v1), SccWord.from_value(v2)
+        got = SccLine(tc, [w1, w2]).to_disassembly(True)
+        want = str(tc) + "\t" + get_scc_word_disassembly(w1, True) + get_scc_word_disassembly(w2, True)
+        rec.evaluated("line disassembly renders every word", ("pair", v1, v2))
+        if got != want:
+          rec.fail("line-disassembly:same-code-other-channel", "line disassembly renders every word", f"line {key['words']}: {got!r} != {want!r}", key)
+        ctx = MockContext(SccChannel.CHANNEL_1)
+        text = SccWord.from_value(0x4142)
+        try:
+          SccLine(tc, [w1, w2, text]).process(ctx)
+        except Exception as e:  # pylint: disable=broad-except
+          rec.fail("process-raises", "only CC1 field-1 data is decoded", f"SccLine.process raised {e!r} on {key['words']} + text", key)
+          continue
+        rec.evaluated("only CC1 field-1 data is decoded", ("pair", v1, v2))
+        c2, ch2, field2, _d = S.classify(v2 >> 8, v2 & 0xFF)
+        # the first word is decoded; the second is not; the text after it belongs to the channel / field of that code: not decoded
+        base = MockContext(SccChannel.CHANNEL_1)
+        SccLine(tc, [SccWord.from_value(v1)]).process(base)      # (the text after the other channel's / field's code is that channel's text)
+        if ctx.calls != base.calls:
+          rec.fail(f"channel-filter:pair:{cls}", "only CC1 field-1 data is decoded",
+                   f"line {key['words']} + 'AB': decoder calls {ctx.calls}, expected {base.calls} (the {'field-2' if field2 == 2 else 'channel-2'} copy of a "
+                   f"channel-1 code is neither decoded nor a redundant copy; text after a channel-2 code is channel-2 text)", key)
+  rec.scope["code_pairs"] = n
 
 
 if __name__ == "__main__":
